@@ -1,7 +1,7 @@
 //! Kani harnesses for the shared handles of src/channel/mpmc.rs (hooked inside `if_alloc::shared`): lifecycle C11.
 //! GROUP: mpmc_shared
 //! MODULE: channel::mpmc::if_alloc::shared::kani_verif_shared
-//! TAGS: C01 C08 C11 C17 C18
+//! TAGS: C01 C08 C09 C11 C17 C18
 //! N: quick=4 thorough=4
 //! UNWIND_EXTRA: 3
 //! KIND: harness (loop-free handle code; full-domain handle counters)
@@ -23,6 +23,17 @@ fn pair() -> (S, R) {
 }
 fn closed(s: &S) -> bool {
     s.inner.channel.inner.lock().is_closed
+}
+
+/// the constructor: one live handle per side, channel open and empty -- "count == number of live handles" holds from the start
+#[kani::proof]
+fn fresh_pair_counts_one_handle_per_side() {
+    let (s, r) = pair();
+    assert!(s.inner.senders.load(Ordering::Relaxed) == 1, "[C11] a new shared channel counts exactly one sender handle");
+    assert!(s.inner.receivers.load(Ordering::Relaxed) == 1, "[C11] a new shared channel counts exactly one receiver handle");
+    assert!(!closed(&s), "[C11] a new shared channel is open");
+    assert!(s.inner.channel.inner.lock().buffer.capacity() == 2, "[C09] the requested capacity is the channel's capacity");
+    core::mem::forget((s, r));
 }
 
 #[kani::proof]
